@@ -587,3 +587,19 @@ def kernels(*names):
     tab['c_accumulate#acyclic'] = (GRID, 'c_accumulate#acyclic', gen_accumulate_acyclic)
     tab['c_inside#evenodd'] = (INSIDE, 'c_inside#evenodd', gen_inside_evenodd)
     return [tab[n] for n in names]
+
+
+KERNEL_FILE = {fn: rel for rel, fn, _ in ALL_KERNELS}
+KERNEL_FILE.update({'c_combi': DUTILS})
+
+
+def install_monitors():
+    """replace the wrappers of the three compiled modules (built from the working tree) by precondition monitors"""
+    from vf import pyxl2, contract
+    load_contracts()
+    import c_hydrodiy_gis, c_hydrodiy_data, c_hydrodiy_stat
+    consts = fdc_consts()
+    mons = []
+    for grp, mod in (('gis', c_hydrodiy_gis), ('data', c_hydrodiy_data), ('stat', c_hydrodiy_stat)):
+        mons.append(pyxl2.Monitor(grp, mod, contract.REGISTRY, KERNEL_FILE, consts))
+    return mons
